@@ -1,6 +1,6 @@
 (* family 4: CDS short timestamps (C14) *)
 From Coq Require Import ZArith List Bool.
-From SP Require Import Base.Result Base.Bytes Run.Marshal Model.Cds Model.CdsSoftFloat Model.CdsFloat Spec.CdsSpec.
+From SP Require Import Base.Result Base.Bytes Run.Marshal Model.Cds Model.CdsSoftFloat Model.CdsFloat Model.CdsObj Spec.CdsSpec.
 Import ListNotations.
 Open Scope Z_scope.
 
@@ -15,6 +15,56 @@ Fixpoint triples (l : list Z) : list (Z * Z * Z) :=
   match l with
   | d :: s :: u :: r => (d, s, u) :: triples r
   | _ => []
+  end.
+
+(* ---- histories on one live object (op 418) ----
+   first line = how the object is made:
+     [0; d; ms] C(d, ms) | [1; d; ms] C(d, ms, init_dt_unix_stamp=False) | [2] empty() |
+     [3] empty(False) | 4 :: octets unpack(octets) | [5; unix_days; ms] from_unix_days |
+     [6; ud; sod; us] from_datetime | [7; ud; sod; us] from_date_time (deprecated alias)
+   ops: 1 :: octets read_from_raw(bytes) | 2 :: octets read_from_raw(bytearray), the caller's
+     buffer overwritten afterwards | [3; d; s; us] += timedelta | [4] read_from_raw(self.pack())
+     | [5] pack() | 6 :: octets read_from_raw(the SAME bytearray object handed over before, edited in
+     place by the caller since; octets = its present content)
+   after the construction and after EVERY op: result line, fields, Unix seconds, datetime
+   (empty line = no _datetime attribute) *)
+(* inside a history the exception class is reported as the harness compares it: the ValueError
+   refinements (too short, unicode) as ValueError *)
+Definition canon_code (c : Z) : Z := if (c =? 2) || (c =? 3) then 1 else c.
+Definition cobj_views (o : cobj) : args :=
+  [[o_days o; o_ms o]; fl_fields (o_unix o); match o_dt o with Some u => [u] | None => [] end].
+Definition cobj_make (l : list Z) : res cobj :=
+  match l with
+  | 0 :: d :: ms :: _ => Ok (cobj_new d ms true)
+  | 1 :: d :: ms :: _ => Ok (cobj_new d ms false)
+  | 2 :: _ => Ok (cobj_empty true)
+  | 3 :: _ => Ok (cobj_empty false)
+  | 4 :: b => cobj_unpack b
+  | 5 :: ud :: ms :: _ => Ok (cobj_from_unix_days ud ms)
+  | 6 :: ud :: sod :: us :: _ => Ok (cobj_from_datetime ud sod us)
+  | 7 :: ud :: sod :: us :: _ => Ok (cobj_from_datetime ud sod us)   (* deprecated alias from_date_time *)
+  | _ => Err EOther
+  end.
+Definition cobj_op_of (l : list Z) : option cobj_op :=
+  match l with
+  | 1 :: b => Some (ORead b)
+  | 2 :: b => Some (ORead b)
+  | 3 :: d :: s :: u :: _ => Some (OAdd d s u)
+  | 4 :: _ => Some OReadOwn
+  | 5 :: _ => Some OPack
+  | 6 :: b => Some (ORead b)
+  | _ => None
+  end.
+Fixpoint cobj_history (o : cobj) (ops : list (list Z)) : args :=
+  match ops with
+  | [] => []
+  | l :: rest =>
+      match cobj_op_of l with
+      | None => [[1; 97]]
+      | Some op =>
+          let '(r, o') := cobj_step o op in
+          (match r with Ok b => 0 :: b | Err e => [1; canon_code (err_code e)] end) :: cobj_views o' ++ cobj_history o' rest
+      end
   end.
 
 Definition run_cds (op : Z) (a : args) : args :=
@@ -43,6 +93,13 @@ Definition run_cds (op : Z) (a : args) : args :=
   | 411 => [[0]; [b2z (cds_eqb (cds_of (lst 0 a)) (cds_of (lst 1 a)))]]
   | 412 => ret (fun b => [b]) (do t <- cds_unpack (lst 0 a); cds_pack t)
   | 413 => ret (fun t => [cds_fields t]) (do b <- cds_pack (cds_of (lst 0 a)); cds_unpack b)
+  | 418 => match cobj_make (lst 0 a) with
+           | Ok o => ([0] :: cobj_views o) ++ cobj_history o (tl a)
+           | Err e => ret_err e
+           end
+  (* now() / from_now() / from_current_time(): clock dependent; the adapter evaluates the
+     invariants (day and millisecond are those of the clock reading, views are the reading) *)
+  | 419 => [[0]; [1; 1; 1]]
   (* Spec side *)
   | 450 => [[0]; cds_layout (cds_of (lst 0 a))]
   | 451 => [[0]; [cds_instant_ms (cds_of (lst 0 a))]]
